@@ -100,6 +100,9 @@ type c13Case struct {
 	Name   string `json:"name"`
 	From   string `json:"from,omitempty"`
 	Scope  string `json:"scope"`
+	// NoRange: the backend does not implement GetBlobRange (it answers "unsupported"); the call asks for the
+	// whole blob as a range. Whatever the view does instead goes to the prefixed repository too.
+	NoRange bool `json:"backend_without_range_support,omitempty"`
 }
 
 func nameClass(n string) string {
@@ -125,13 +128,20 @@ func nameClass(n string) string {
 func c13RunConfine(r *vcore.Run, c c13Case) {
 	backend := newRecBackend()
 	backend.Repos = []string{"foo", "foo/a", "foo/a/b", "foo/bar/c", "fooey/x", "other"}
-	sub := c13Sub(backend.Funcs(), c.Prefix)
+	bf := backend.Funcs()
+	if c.NoRange {
+		bf.GetBlobRange_ = nil
+	}
+	sub := c13Sub(bf, c.Prefix)
 	ctx := context.Background()
 	if c.Scope != "" {
 		ctx = ociauth.ContextWithScope(ctx, c13Scope(c.Scope))
 	}
 	a := opArgs{Repo: c.Name, From: c.From, Tag: "t", ID: "upload-id-1", Digest: c12Dig, O0: 0, O1: 2, Chunk: 2,
 		DescDigest: c12Dig, DescSize: 5, Data: []byte("hello"), MediaType: "application/octet-stream"}
+	if c.NoRange {
+		a.O1 = -1
+	}
 	fp := fmt.Sprintf("C13/%s", c.Method)
 	if r.Guard("confine", fp+"/scope-"+c13ScopeClass(c.Scope), c, func() {
 		res := callMethod(ctx, sub, c.Method, a)
@@ -341,10 +351,13 @@ func c13Check(r *vcore.Run) vcore.Coverage {
 							if !r.Thorough() && from != "a" && n != "a" {
 								continue
 							}
-							cases = append(cases, c13Case{p, m, n, from, sc})
+							cases = append(cases, c13Case{Prefix: p, Method: m, Name: n, From: from, Scope: sc})
 						}
 					} else {
 						cases = append(cases, c13Case{Prefix: p, Method: m, Name: n, Scope: sc})
+						if m == "GetBlobRange" {
+							cases = append(cases, c13Case{Prefix: p, Method: m, Name: n, Scope: sc, NoRange: true})
+						}
 					}
 				}
 			}
